@@ -11,6 +11,7 @@ import copy, json, os
 
 VERIF = os.path.dirname(os.path.dirname(os.path.abspath(__file__)))
 MAX_BLOCKS = 120
+CLOSURE_CALLS = ('std::ops::FnOnce::call_once', 'std::ops::Fn::call', 'std::ops::FnMut::call_mut')
 
 
 def known_functions():
@@ -110,6 +111,30 @@ def apply(F):
                 if cn not in cand or cn == name: continue
                 _inline_call(F, b, bi, F.bodies[cn])
                 F.inlined.append((name, cn)); changed = True
+    # closures handed to an inlined helper (`self.helper(f, |r| r.is_err())`): once the helper is spliced in, the closure value is a
+    # local aggregate and its call is `FnOnce::call_once(move _p, (args,))`; splice the (new) closure body in as well
+    touched = {x[0] for x in F.inlined}
+    for name in sorted(touched):
+        b = F.bodies.get(name)
+        if b is None: continue
+        for _ in range(8):
+            did = False
+            for bi, blk in enumerate(b['blocks']):
+                t = blk['term']
+                if t['t'] != 'call' or t['f'].get('o') != 'const' or t['f'].get('fn') not in CLOSURE_CALLS or len(t['args']) != 2: continue
+                path = _closure_of(b, t['args'][0])
+                if path is None: continue
+                cn = b['crate'] + '::' + path
+                K = F.bodies.get(cn)
+                if K is None or cn in known or len(K['blocks']) > MAX_BLOCKS or cn == name: continue
+                if _inline_closure_call(F, b, bi, K):
+                    F.inlined.append((name, cn)); did = True; break
+            if not did: break
+    # a spliced-in predicate such as `|_| true` leaves `switch` terminators on a constant: fold them (touched bodies only)
+    for name in sorted(touched):
+        b = F.bodies.get(name)
+        if b is not None:
+            _thread_jumps(b); _fold_const_switches(b)
     # helpers that no longer have callers disappear from the inventory of bodies
     still = {cn for n, b in F.bodies.items() if n not in cand for _, cn in _calls(F, b)}
     for c in cand:
@@ -138,3 +163,132 @@ def _inline_call(F, caller, bi, callee):
     for l, nm in K.get('debug', {}).items():
         caller.setdefault('debug', {})[str(int(l) + dl)] = nm
     caller['blocks'][bi]['term'] = {'t': 'goto', 'to': db}
+
+
+def _closure_of(b, operand):
+    """path of the closure whose value `operand` holds, if that is decided by a single-definition chain inside the body"""
+    for _ in range(24):
+        if operand.get('o') not in ('copy', 'move'): return None
+        p = operand['p']
+        if any(e['p'] != 'deref' for e in p.get('proj', [])): return None
+        l = p['l']
+        if any(blk['term']['t'] == 'call' and blk['term']['dest']['l'] == l for blk in b['blocks']): return None
+        defs = [s for blk in b['blocks'] for s in blk['stmts'] if s['s'] == 'assign' and s['lhs']['l'] == l]
+        if len(defs) != 1 or defs[0]['lhs'].get('proj'): return None
+        rv = defs[0]['rv']
+        if rv['r'] == 'agg' and rv['kind'].get('a') == 'closure' and rv['kind'].get('path'): return rv['kind']['path']
+        if rv['r'] == 'use': operand = rv['a']
+        elif rv['r'] == 'ref': operand = {'o': 'copy', 'p': rv['p']}
+        else: return None
+    return None
+
+
+def _inline_closure_call(F, caller, bi, callee):
+    """`call_once(closure, (a, b))` -> the closure body with _1 := closure (or &closure), _2 := a, _3 := b"""
+    t = caller['blocks'][bi]['term']
+    env, tup = t['args']
+    argc = callee.get('argc', 1)
+    if argc > 1 and tup.get('o') not in ('copy', 'move'): return False
+    K = copy.deepcopy(callee)
+    dl = len(caller['locals']); db = len(caller['blocks'])
+    cont = t.get('to')
+    for blk in K['blocks']:
+        _shift_block(blk, dl, db)
+    st = caller['blocks'][bi]['stmts']
+    env_ty = K['locals'][1]
+    env_is_ref = env_ty.get('t', {}).get('k') == 'ref'
+    arg_is_ref = isinstance(env.get('p', {}).get('ty'), str) and env['p']['ty'].startswith('&')
+    if env_is_ref and not arg_is_ref and env.get('o') in ('copy', 'move'):
+        rv = {'r': 'ref', 'bk': 'Shared', 'p': copy.deepcopy(env['p'])}
+    else:
+        rv = {'r': 'use', 'a': env}
+    st.append({'s': 'assign', 'lhs': {'l': dl + 1, 'proj': [], 'ty': env_ty['s']}, 'rv': rv, 'span': t['span']})
+    # the argument tuple: when it is built by a single aggregate assignment in the same block, hand its components over directly
+    tdef = None
+    if argc > 1 and not tup['p'].get('proj'):
+        ds = [s_ for blk in caller['blocks'] for s_ in blk['stmts'] if s_['s'] == 'assign' and s_['lhs']['l'] == tup['p']['l']]
+        if len(ds) == 1 and ds[0] in st and ds[0]['rv']['r'] == 'agg' and ds[0]['rv']['kind'].get('a') == 'tuple' and len(ds[0]['rv']['ops']) == argc - 1:
+            tdef = ds[0]['rv']['ops']
+    for k in range(argc - 1):
+        if tdef is not None:
+            a_ = copy.deepcopy(tdef[k])
+        else:
+            src = copy.deepcopy(tup['p']); src['proj'] = list(src.get('proj', [])) + [{'p': 'field', 'i': k}]; src['ty'] = K['locals'][k + 2]['s']
+            a_ = {'o': 'move', 'p': src}
+        st.append({'s': 'assign', 'lhs': {'l': dl + k + 2, 'proj': [], 'ty': K['locals'][k + 2]['s']}, 'rv': {'r': 'use', 'a': a_}, 'span': t['span']})
+    for blk in K['blocks']:
+        if blk['term']['t'] == 'return':
+            blk['stmts'].append({'s': 'assign', 'lhs': copy.deepcopy(t['dest']), 'rv': {'r': 'use', 'a': {'o': 'move', 'p': {'l': dl, 'proj': [], 'ty': K['locals'][0]['s']}}}, 'span': t['span']})
+            blk['term'] = {'t': 'goto', 'to': cont} if cont is not None else {'t': 'unreachable'}
+    caller['locals'].extend(K['locals'])
+    caller['blocks'].extend(K['blocks'])
+    for l, nm in K.get('debug', {}).items():
+        caller.setdefault('debug', {})[str(int(l) + dl)] = nm
+    caller['blocks'][bi]['term'] = {'t': 'goto', 'to': db}
+    return True
+
+
+def _const_of(b, operand):
+    for _ in range(24):
+        if operand.get('o') == 'const':
+            return operand.get('bits')
+        if operand.get('o') not in ('copy', 'move') or operand['p'].get('proj'): return None
+        l = operand['p']['l']
+        if any(blk['term']['t'] == 'call' and blk['term']['dest']['l'] == l for blk in b['blocks']): return None
+        defs = [s for blk in b['blocks'] for s in blk['stmts'] if s['s'] == 'assign' and s['lhs']['l'] == l]
+        if len(defs) != 1 or defs[0]['lhs'].get('proj') or defs[0]['rv']['r'] != 'use': return None
+        operand = defs[0]['rv']['a']
+    return None
+
+
+def _fold_const_switches(b):
+    if b.get('argc') is None: return
+    for blk in b['blocks']:
+        t = blk['term']
+        if t['t'] != 'switch': continue
+        if t['on'].get('o') in ('copy', 'move') and t['on']['p']['l'] <= b['argc']: continue
+        c = _const_of(b, t['on'])
+        if c is None: continue
+        try: v = int(c)
+        except (TypeError, ValueError): continue
+        to = {int(x): y for x, y in t['arms']}.get(v, t['otherwise'])
+        blk['term'] = {'t': 'goto', 'to': to}
+
+
+def _thread_jumps(b):
+    """`matches!(..)` in a spliced-in predicate materialises a bool (`_r = const true; goto J` / `_r = const false; goto J`) that the caller
+    then switches on.  Jump threading: a block that reaches a `switch` through a chain of gotos, and along which the switch operand is a
+    known constant, gets the chain's statements appended and jumps to the selected arm directly (semantics preserving)."""
+    for _round in range(4):
+        did = False
+        for A in b['blocks']:
+            if A['term']['t'] != 'goto': continue
+            chain = []; cur = A['term']['to']; S = None
+            for _ in range(6):
+                blk = b['blocks'][cur]
+                if blk is A: break
+                if blk['term']['t'] == 'goto': chain.append(blk); cur = blk['term']['to']; continue
+                if blk['term']['t'] == 'switch': S = blk
+                break
+            if S is None: continue
+            env = {}
+            for st in A['stmts'] + [x for c in chain for x in c['stmts']] + S['stmts']:
+                if st['s'] != 'assign': continue
+                l = st['lhs']['l']
+                if st['lhs'].get('proj'): env.pop(l, None); continue
+                rv = st['rv']; v = None
+                if rv['r'] == 'use':
+                    a = rv['a']
+                    if a.get('o') == 'const' and a.get('bits') is not None: v = a['bits']
+                    elif a.get('o') in ('copy', 'move') and not a['p'].get('proj'): v = env.get(a['p']['l'])
+                if v is None: env.pop(l, None)
+                else: env[l] = v
+            on = S['term']['on']
+            if on.get('o') not in ('copy', 'move') or on['p'].get('proj') or on['p']['l'] not in env: continue
+            try: v = int(env[on['p']['l']])
+            except (TypeError, ValueError): continue
+            to = {int(x): y for x, y in S['term']['arms']}.get(v, S['term']['otherwise'])
+            A['stmts'] = A['stmts'] + copy.deepcopy([x for c in chain for x in c['stmts']] + S['stmts'])
+            A['term'] = {'t': 'goto', 'to': to}
+            did = True
+        if not did: break
